@@ -3,6 +3,7 @@ package codec
 import (
 	"bytes"
 	"fmt"
+	"math"
 	"strconv"
 
 	"github.com/pentops/j5/lib/j5reflect"
@@ -117,9 +118,14 @@ func (enc *encoder) addBool(val bool) {
 	}
 }
 
-func (enc *encoder) addFloat(val float64, bitSize int) {
+func (enc *encoder) addFloat(val float64, bitSize int) error {
+	if math.IsNaN(val) || math.IsInf(val, 0) {
+		// JSON has no representation for these
+		return fmt.Errorf("unsupported float value %v", val)
+	}
 	str := strconv.FormatFloat(val, 'g', -1, bitSize)
 	enc.add([]byte(str))
+	return nil
 }
 
 /*
